@@ -44,6 +44,7 @@ package http
 //@   modifies nothing
 //@   ghostset invalidated(ctx) := True()
 //@   callsites InvalidateToken 1
+//@   callassert WithTimeout#1: @detached u(arg0) == BackgroundCtx()
 
 //@ func http.writeErr
 //@   nopaths
